@@ -38,6 +38,8 @@ DEFAULT_KNOBS = {
     "p_member_named_like_module": 0,   # line 1 of a module binds a global spelled like the module itself
     "p_multi_global": 0,    # `global a, b` (two names in one statement), both rebound
     "p_class_comp": 0,      # class body: list attribute + comprehension over it (first iterable = class scope)
+    "p_attr_in_tuple_target": 0,   # obj.attr among the targets of a tuple assignment or as a for target
+    "p_cmp_arg": 0,         # int(a == b) as an expression (a comparison as a call argument)
     "p_kw_like_var": 0,     # calls of **kwargs functions pass a keyword spelled like a variable
     "unique_names": 0,      # 1 = every binding gets its own spelling (no clashes anywhere in the project);
                             # 2 = the same, except that class attributes may reuse the spelling of a module global
@@ -281,6 +283,8 @@ class Gen:
         if r < 0.55:
             op = self.rnd.choice(["+", "-", "*", "+", "-"])
             return f"{self.int_expr(ctx, depth - 1)} {op} {self.int_expr(ctx, depth - 1)}"
+        if self.k["p_cmp_arg"] and depth > 0 and self.p("p_cmp_arg"):
+            return f"int({self.int_expr(ctx, 0)} == {self.int_expr(ctx, 0)})"
         if r < 0.62:
             op = self.rnd.choice(["//", "%"])
             return f"({self.int_expr(ctx, depth - 1)}) {op} {self.rnd.choice([2, 3, 5, 7])}"
@@ -439,7 +443,16 @@ class Gen:
                 if ci.all_fields():
                     fld = self.rnd.choice(ci.all_fields())
                     op = self.rnd.choice(["=", "+=", "-="])
-                    out.append(f"{pad}{t}.{fld} {op} {self.int_expr(ctx, 1)}")
+                    if self.k["p_attr_in_tuple_target"] and assigned and self.p("p_attr_in_tuple_target"):
+                        # an attribute of an object among the targets of a tuple assignment / for statement
+                        v2 = self.rnd.choice(assigned)
+                        if self.rnd.random() < 0.5:
+                            out.append(f"{pad}{t}.{fld}, {v2} = {self.int_expr(ctx, 1)}, {self.int_expr(ctx, 0)}")
+                        else:
+                            out.append(f"{pad}for {t}.{fld} in [{self.int_expr(ctx, 0)}, {self.lit()}]:")
+                            out.append(f"{pad}    {v2} = {t}.{fld}")
+                    else:
+                        out.append(f"{pad}{t}.{fld} {op} {self.int_expr(ctx, 1)}")
             elif self.p("p_fstring") and assigned:
                 v = self.rnd.choice(assigned)
                 self.uid += 1
@@ -879,6 +892,24 @@ class Gen:
             mod.instances.append((g, ci))
             ctx.insts.append((g, ci))
             self._expose_instance(ctx, g, ci)
+            if self.k["p_attr_in_tuple_target"] and ci.all_fields() and self.p("p_attr_in_tuple_target"):
+                # a function that READS the module-level instance and stores to one of its fields through a
+                # tuple assignment / a for target (the instance itself is never rebound there)
+                fld = rnd.choice(ci.all_fields())
+                fn = self.fresh(["touch", "poke"], taken)
+                taken.add(fn)
+                pv, tv = self.fresh(VNAMES, taken | {g}), self.fresh(["w", "tmp"], taken | {g})
+                lines.append("")
+                lines.append(f"def {fn}({pv}):")
+                if rnd.random() < 0.5:
+                    lines.append(f"    {g}.{fld}, {tv} = {pv}, {g}.{fld}")
+                else:
+                    lines.append(f"    {tv} = 0")
+                    lines.append(f"    for {g}.{fld} in [{pv}, {pv} + 1]:")
+                    lines.append(f"        {tv} += {g}.{fld}")
+                lines.append(f"    return {tv} + {g}.{fld}")
+                sig = Sig(fn, [(pv, "pos", None)])
+                mod.funcs.append(sig)
         if self.p("p_module_level_call") and ctx.funcs:
             g = self.fresh(["result", "total", "cached"], taken)
             taken.add(g)
